@@ -166,6 +166,9 @@ def install_seams():
     _uuid.uuid4 = _sim_uuid4
     bdt.utc_now = _sim_utc_now
     event.Producer.__hash__ = _producer_hash
+    import sys
+    # coroutines abandoned with a closed loop (runs cut by a cap or a detected hang) complain when collected
+    sys.unraisablehook = lambda *a, **k: None
     warnings.filterwarnings("ignore", category=RuntimeWarning)
     warnings.filterwarnings("ignore", category=DeprecationWarning)
     warnings.filterwarnings("ignore", category=ResourceWarning)
